@@ -35,7 +35,8 @@
 //!       -> ok | reject     (Face::from_slice answer)
 //!   c01 <fontid | @path@index[@t<len>|@w<off>:<hex>]…> <dir> <script> <lang> <flags> <level> <feats> <pre> <post> <text> [k=v …]
 //!       same fields as `shape` (ops/shape.rs) but text = hexcp[*count],… (clusters = running index) and
-//!       k=v additionally: ser=<0|1> (serialize with glyph names / extents / flags / no-advances too)
+//!       k=v additionally: ser=<0|1> (serialize with glyph names / extents / flags / no-advances too),
+//!       cl=<u32>[*count],… (explicit input clusters of the first characters, decimal; the rest keep the running index)
 //!       -> ok in=<n> out=<m> ms=<wall> cpu=<cpu time of the request, ms> h=<hash> | reject
 use super::shape as sh;
 use super::util::hex_bytes;
@@ -108,6 +109,25 @@ fn rle_text(s: &str) -> Option<Vec<char>> {
         let ch = char::from_u32(u32::from_str_radix(c, 16).ok()?)?;
         for _ in 0..n {
             v.push(ch);
+        }
+    }
+    Some(v)
+}
+
+/// clusters = u32[*count],… (decimal)
+fn rle_clusters(s: &str) -> Option<Vec<u32>> {
+    let mut v = vec![];
+    if s == "-" {
+        return Some(v);
+    }
+    for item in s.split(',') {
+        let (c, n) = match item.split_once('*') {
+            Some((c, n)) => (c, n.parse::<usize>().ok()?),
+            None => (item, 1),
+        };
+        let c: u32 = c.parse().ok()?;
+        for _ in 0..n {
+            v.push(c);
         }
     }
     Some(v)
@@ -742,16 +762,28 @@ fn c01(toks: &[&str], st: &mut State) -> Option<String> {
     let text = rle_text(t2[9])?;
     t2[9] = "-";
     let mut ser = false;
+    let mut cl: Option<&str> = None;
     t2.retain(|t| {
         if *t == "ser=1" {
             ser = true;
+            false
+        } else if let Some(v) = t.strip_prefix("cl=") {
+            cl = Some(v);
             false
         } else {
             *t != "ser=0"
         }
     });
+    let cl = match cl {
+        Some(v) => rle_clusters(v)?,
+        None => vec![],
+    };
     let mut r = sh::parse_req(&t2)?;
-    r.text = text.iter().enumerate().map(|(i, c)| (*c, i as u32)).collect();
+    r.text = text
+        .iter()
+        .enumerate()
+        .map(|(i, c)| (*c, cl.get(i).copied().unwrap_or(i as u32)))
+        .collect();
     let t0 = std::time::Instant::now();
     if r.font.starts_with('@') {
         let (data, idx) = spec_font(st, r.font)?;
